@@ -91,8 +91,10 @@ fn damage(b: &mut Vec<u8>, rng: &mut Rng) -> &'static str {
         }
         5 => {
             // invalid UTF-8 after '>' (text) or inside CDATA / a comment / a value
-            let pats: [&[u8]; 4] = [b">", b"<![CDATA[", b"<!--", b"=\""];
-            let p = pats[rng.below(4)];
+            // (also inside a processing instruction / the declaration / a DOCTYPE: seeded change
+            // C11-m16 decodes the content of comments and PIs)
+            let pats: [&[u8]; 7] = [b">", b"<![CDATA[", b"<!--", b"=\"", b"<?", b"<!DOCTYPE ", b"<!--"];
+            let p = pats[rng.below(7)];
             let q = find_all(b, p);
             if let Some(&i) = q.get(rng.below(q.len().max(1))) {
                 splice(b, i + p.len(), 0, if rng.chance(1, 2) { &[0xFF] } else { &[0xE2, 0x82] });
